@@ -123,6 +123,7 @@ static std::vector<Coars> coarsenings() {
     mk_("agg",        "aggregation", 1.5, {}, true);                                           // default over_interp = 1.5
     mk_("agg_oi2",    "aggregation", 2.0, {{"over_interp", "2"}}, true);
     mk_("agg_oi1_e",  "aggregation", 1.0, {{"over_interp", "1"}, {"aggr.eps_strong", "0.3"}}, true);
+    mk_("agg_oi05",   "aggregation", 0.5, {{"over_interp", "0.5"}}, true);                     // a factor below one is a valid parameter value too
     mk_("sa",         "smoothed_aggregation", 0, {}, true);
     mk_("sa_rho",     "smoothed_aggregation", 0, {{"relax", "0.5"}, {"estimate_spectral_radius", "true"}, {"power_iters", "0"}}, true);
     mk_("sa_pow",     "smoothed_aggregation", 0, {{"estimate_spectral_radius", "true"}, {"power_iters", "3"}, {"aggr.eps_strong", "0"}}, true);
